@@ -172,3 +172,12 @@ Definition route_cmdline (x : exe_in) (r : route) : list str :=
         ++ [s_dashdash] ++ cmd
   | RPickle _ => x_build_cmd x ++ [s_internal; s_exe; s_unpickle; x_datafile x]
   end.
+
+(* ------------------------------------------------------------ tests (mtest.py:1534-1563, 1583) *)
+
+(* SingleTestRunner: cmd = get_wrapper(options) + test.fname (native build, no exe wrapper),
+   and run() starts  cmd + test.cmd_args + options.test_args  with create_subprocess_exec
+   (no shell).  test.cmd_args are the str arguments of test() as they are
+   (backends.py:1318-1332). *)
+Definition test_cmdline (wrapper fname cmd_args test_args : list str) : list str :=
+  (wrapper ++ fname) ++ cmd_args ++ test_args.
